@@ -237,6 +237,12 @@ Definition prune_loaded_packs (f : ifile) : list ipack :=
   (if PRUNE_USES_PACKS then packs f else []) ++ (if PRUNE_USES_MARKED then packs_to_delete f else []).
 Definition prune_index_of_with := fun se si => index_of_gen pack_size prune_loaded_packs se si PRUNE_INDEX_TYPE.
 
+(* check_packs (commands/check.rs) builds the index `check` walks the trees with:
+   IndexCollector::new(CHECK_INDEX_TYPE), per file `extend(index.packs.clone())` *)
+Definition check_loaded_packs (f : ifile) : list ipack :=
+  (if CHECK_USES_PACKS then packs f else []) ++ (if CHECK_USES_MARKED then packs_to_delete f else []).
+Definition check_index_of_with := fun se si => index_of_gen pack_size check_loaded_packs se si CHECK_INDEX_TYPE.
+
 (* ---------------------------------------------------------------- GlobalIndex level *)
 (* ReadIndex::{has_tree, has_data, get_tree, get_data}; GlobalIndex delegates to the Index *)
 Definition has_tree (ix : index) (id : N) : bool := has ix Tree id.
